@@ -1336,7 +1336,10 @@ class PureInterp:
             if name in ("logging.getLogger", "logging.getLoggerClass"):
                 ev_ = self.events
                 mk = lambda lvl: (lambda *a, **k: ev_.append(("log", lvl, a)))
-                return Obj("opaque:logger", **{lvl: mk(lvl) for lvl in ("debug", "info", "warning", "error", "exception", "critical", "log")})
+                # every level counts as enabled: what a command does must not depend on the verbosity, so code guarded by isEnabledFor(DEBUG) is evaluated too
+                return Obj("opaque:logger", isEnabledFor=lambda *a: True, getEffectiveLevel=lambda: 10, level=10, setLevel=lambda *a: None, disabled=False, propagate=True,
+                           handlers=[], addHandler=lambda *a: None, removeHandler=lambda *a: None, getChild=lambda *a: Obj("opaque:logger"), name="gwf",
+                           **{lvl: mk(lvl) for lvl in ("debug", "info", "warning", "error", "exception", "critical", "log", "warn", "fatal")})
             if name in ("operator.attrgetter", "operator.itemgetter", "operator.methodcaller"):
                 kind = name.rsplit(".", 1)[1]
                 if kind == "attrgetter":
